@@ -50,6 +50,13 @@ CONSTANTS CIDS,        \* e.g. {"c1","c2"}
           DirOverRecStuck   \* TRUE = a direct pin of a CID the daemon still holds recursively
                             \* fails forever ("already pinned recursively"): tolerated class
 
+\* The cluster API never turns a recursive pin into a direct one (C04 refuses it), so by default the environment
+\* does not issue Track(c, direct) over a recorded recursive pin.  C05 quantifies over ALL instruction sequences
+\* at the tracker: configurations with `CONSTANT AllowDowngrade <- AllowDowngradeOn` lift the restriction
+\* (the result is the tolerated direct-over-recursive class unless the daemon lost the CID meanwhile).
+AllowDowngrade == FALSE
+AllowDowngradeOn == TRUE
+
 VARIABLES st, ipfs, ops, table, pinQ, unpinQ, wk, ninstr, nfail, lastRes, healthy, act,
           proj   \* derived: what a client can observe (a function of the other variables)
 
@@ -214,7 +221,7 @@ Budget == ninstr < MaxInstr
 \* Track of a pin allocated here (or everywhere), in mode m
 TrackLocal(c, m) ==
     /\ Budget /\ m \in {"rec", "dir"}
-    /\ ~(ModeOf(st[c]) = "rec" /\ m = "dir")  \* C04 refuses recursive -> direct
+    /\ (AllowDowngrade \/ ~(ModeOf(st[c]) = "rec" /\ m = "dir"))  \* C04 refuses recursive -> direct
     /\ st[c] # "meta"                          \* C04 refuses type changes
     /\ CanCreate(ops)
     /\ LET r == Enqueue(ops, table, pinQ, unpinQ, c, "pin", m) IN
@@ -236,7 +243,7 @@ TrackMeta(c) ==
 \* Track of a pin allocated elsewhere: synchronous unpin on the caller's thread
 TrackRemote(c, m) ==
     /\ Budget /\ st[c] # "meta" /\ m \in {"rec", "dir"}
-    /\ ~(ModeOf(st[c]) = "rec" /\ m = "dir")
+    /\ (AllowDowngrade \/ ~(ModeOf(st[c]) = "rec" /\ m = "dir"))
     /\ wk[RemoteT].pc = "idle"
     /\ CanCreate(ops)
     /\ st' = [st EXCEPT ![c] = "r" \o m]
@@ -511,7 +518,16 @@ CoverNew ==
     IF "br" \notin DOMAIN act THEN TRUE
     ELSE LET t == <<act.name, act.br>> IN
          IF t \in TLCGet(7) THEN TRUE ELSE TLCSet(7, TLCGet(7) \cup {t}) /\ FALSE
-CoverInit == TLCSet(7, {})
+CoverInit == TLCSet(7, {}) /\ TLCSet(8, {})
+
+\* quiescent-class coverage: violated the first time a quiescent state shows a CID in a class
+\* <<recorded state, daemon state, status of the table entry or "-", daemon healthy>> not seen before
+\* (the driver observes Status / StatusAll / the daemon at quiescent states: every class is then observed)
+QClass(c) == <<st[c], ipfs[c], IF table[c] # 0 THEN OpStatus(ops[table[c]]) ELSE "-", healthy>>
+QCoverNew ==
+    IF ~Quiescent THEN TRUE
+    ELSE LET new == {QClass(c) : c \in CIDS} \ TLCGet(8) IN
+         IF new = {} THEN TRUE ELSE TLCSet(8, TLCGet(8) \cup new) /\ FALSE
 
 \* liveness: under fair scheduling of the workers and a daemon that answers every call,
 \* the tracker always comes to rest again: whenever the environment has used up its
